@@ -24,6 +24,7 @@ type Ctx struct {
 	includeValidator *types.Func
 	pureNN           map[*ssa.Function]int
 	nonNilMemo       map[*types.Func]int
+	pasteE           *pasteEval
 	fieldMemo        map[string]*types.Var
 	setterMemo       map[*ssa.Function]*setterEval
 	nsOnlyFields     bool // ruleCollectBeforeUse: only the per-resource sets (map fields), not the cross-block name spaces
